@@ -445,6 +445,41 @@ def ukStep (m : List (Nat × Nat)) (line : String) (t : Tally) : Except String (
   | ["clear"] => .ok ([], t.bump "clear")
   | _ => .error "unknown line"
 
+/-! ### conc-refresh: a reload in flight behind concurrent readers, default executor (C11, C08) -/
+
+def crfStep (_st : Unit) (line : String) (t : Tally) : Except String (Unit × Tally) :=
+  let ws := splitWs line
+  match ws with
+  | "cfg" :: _ => .ok ((), t)
+  | "rround" :: rest =>
+    let g := natOf rest
+    let kv (k : String) := (kvOf rest k).getD ""
+    let oc := kv "outcome"
+    let t := (t.bump "rounds").bump ("outcome_" ++ oc)
+    let t := if kv "explicit" == "true" then t.bump "explicit_refreshes" else t.bump "stale_read_refreshes"
+    if kv "started" != "true" then .error s!"C11: the refresh time of key {g "key"} had passed but neither the reads nor the explicit Refresh handed a reload to the executor"
+    else if kv "settled" != "true" then .error s!"C08/C11: the reload of key {g "key"} returned but its call is still registered as in flight"
+    else if g "readsother" != 0 then
+      .error s!"C11: {g "readsother"} read(s) made before the reload finished did not return the cached value {g "old"} (one returned {kv "sample"}; -1 = absent)"
+    -- (a reload task queued by an earlier stale read may run after the first reload has finished: more than one Reload is
+    -- fine as long as they do not overlap; after a not-found reload such a late task finds the key absent and uses Load)
+    else if g "loads" != 0 && oc != "nf" then .error s!"C11: Load was invoked {g "loads"} times for a key that was present (a refresh must use Reload)"
+    else if g "reloads" == 0 then .error s!"C11: no Reload was invoked for the refresh of key {g "key"}"
+    else if g "overlap" > 1 then .error s!"C08/C11: {g "overlap"} loader invocations for key {g "key"} were in progress at once (readers arriving while a reload is in flight must not start another)"
+    else if g "reloadsaw" != g "old" then .error s!"C11: Reload was given old value {g "reloadsaw"}, the cached value was {g "old"}"
+    else
+      let want := if oc == "ok" then toString (g "new") else if oc == "err" then toString (g "old") else "absent"
+      let lateLoad := oc == "nf" && g "loads" != 0 && kv "after" == toString (g "new" + 2)
+      if kv "after" != want && !lateLoad then .error s!"C11: after a reload with outcome {oc} the cache holds {kv "after"} for key {g "key"}, expected {want}"
+      else if oc == "err" && kv "expiry" == "true" && kv "expsame" != "true" then .error s!"C11: a failed reload changed the expiration time of key {g "key"}"
+      else if kv "explicit" == "true" then
+        let wantCh := if oc == "ok" then s!"nil:{g "new"}" else oc
+        if g "results" != 1 then .error s!"C11: the channel of an explicit Refresh delivered {g "results"} results"
+        else if kv "chan" != wantCh then .error s!"C11: the channel of an explicit Refresh delivered {kv "chan"}, the reload's outcome was {wantCh}"
+        else .ok ((), t)
+      else .ok ((), t)
+  | _ => .error "unknown line"
+
 /-! ### conc-resize: a Compute in progress while the table is resized (C15, C02) -/
 
 def czStep (_st : Unit) (line : String) (t : Tally) : Except String (Unit × Tally) :=
@@ -687,6 +722,7 @@ def dispatch (cmd : String) (_args : List String) (h : IO.FS.Stream) : IO UInt32
   | "concpolicy" => loop h () cpStep () "" 0 false {}; return 0
   | "concresize" => loop h () czStep () "" 0 false {}; return 0
   | "keys" => loop h ([] : List (Nat × Nat)) ukStep [] "" 0 false {}; return 0
+  | "concrefresh" => loop h () crfStep () "" 0 false {}; return 0
   | "concevents" => loop h ({} : CeSt) ceStep {} "" 0 false {}; return 0
   | "concmpsc" => loop h ({} : CmSt) cmStep {} "" 0 false {}; return 0
   | "concdrain" => loop h () cdStep () "" 0 false {}; return 0
